@@ -10,7 +10,9 @@ use crate::typemodel;
 use serde_json::json;
 use std::collections::BTreeSet;
 
-const TARGET_KINDS: [&str; 9] = [
+const TARGET_KINDS: [&str; 12] = [
+    // a container-level rename_all converts the members' names, never the item's own name
+    "newtype-with-rename-all", "struct-serialized-as-with-rename-all", "struct-with-rename-all",
     "struct", "generic-struct", "unit-enum", "tagged-enum", "newtype", "alias",
     // item-level decorators that send the definition through another writer of a backend
     "newtype-kotlin-jvminline", "alias-kotlin-jvminline-redacted", "struct-swift-decorated-redacted",
@@ -95,6 +97,22 @@ fn target_item(c: &Case) -> Item {
         "unit-enum" => Item::enumm("Tgt", vec![Variant::new("One", VKind::Unit), Variant::new("Two", VKind::Unit)]),
         "tagged-enum" => Item::enumm("Tgt", vec![Variant::new("One", VKind::Unit), Variant::new("Sv", VKind::Struct(vec![Field::new("x", Ty::Prim("u32"))])), Variant::new("Nt", VKind::Newtype(Ty::Prim("String")))]),
         "newtype" => Item::new("Tgt", IKind::Newtype(Ty::Prim("String"))),
+        "newtype-with-rename-all" => {
+            let mut i = Item::new("Tgt", IKind::Newtype(Ty::Prim("String")));
+            i.rename_all = Some("camelCase".into());
+            i
+        }
+        "struct-serialized-as-with-rename-all" => {
+            let mut i = Item::strukt("Tgt", vec![Field::new("some_field", Ty::Prim("u32"))]);
+            i.ts_args.push("serialized_as = \"String\"".into());
+            i.rename_all = Some("snake_case".into());
+            i
+        }
+        "struct-with-rename-all" => {
+            let mut i = Item::strukt("Tgt", vec![Field::new("some_field", Ty::Prim("u32"))]);
+            i.rename_all = Some("SCREAMING-KEBAB-CASE".into());
+            i
+        }
         "newtype-kotlin-jvminline" => {
             let mut i = Item::new("Tgt", IKind::Newtype(Ty::Prim("String")));
             i.ts_args.push("kotlin = \"JvmInline\"".into());
